@@ -116,4 +116,11 @@ theorem minQ_le (xs : List Rat) : ∀ x ∈ xs, minQ xs ≤ x := by
         · rename_i hle; exact le_trans hle this
         · exact this
 
+/-- kernel-evaluated `.4g` examples (the geothermal-gradient lines): trailing zeros and a dangling point are dropped, four significant
+digits are kept, a carry into the next decade is handled, values Python prints in scientific notation are declined -/
+theorem fmtG_examples :
+    fmtG 4 50 = some "50".toList ∧ fmtG 4 (367 / 10) = some "36.7".toList ∧ fmtG 4 (123456 / 1000) = some "123.5".toList
+    ∧ fmtG 4 (5 / 100) = some "0.05".toList ∧ fmtG 4 (99996 / 100000) = some "1".toList ∧ fmtG 4 (-3 / 2) = some "-1.5".toList
+    ∧ fmtG 4 99999 = none ∧ fmtG 4 (1 / 100000) = none := by decide +kernel
+
 end GeoVerif.C09
